@@ -92,7 +92,9 @@ def plan(prop, tier):
                   MaxLen=3 if q else 4),
                 G("caps12", Leaves="<-LvG12", Quants="<-QOptOnly", MaxSize=2, MaxGroups=13, Repl2="<-ReplG12", MaxLen=3,
                   invs=["T1_RoundTrip", "T3_Leftmost"]),
-                T("rand", "groups", 2000, 40000)]
+                G("mlcaps", Leaves="<-LvMlCaps", Quants="<-QOptOnly", MaxSize=5 if q else 6, MaxGroups=9, FlagSets="<-FlagsM",
+                  Shapes="<-ShapesNoGrp", Alpha="{97, 98, 10}", MaxLen=3, Repl2="<-ReplG2", invs=["T1_RoundTrip", "T3_Leftmost"]),
+                T("rand", "groups", 2000, 40000), T("mlg", "mlgroups", 1000, 20000)]
     if prop == "C04":
         return [G("part", Leaves="<-LvCore", Quants="<-QSmall", MaxSize=4, MaxLen=3 if q else 4,
                   Variants='{"base", "xsd"}')] + \
@@ -132,13 +134,15 @@ def plan(prop, tier):
     if prop == "C15":
         return [R("repl", 3 if q else 4), T("rand", "repl", 2000, 40000)]
     if prop == "C08":
-        o = {"also_unopt": True}
+        o = {"also_unopt": True, "facts": True}
         return [dict(G("shapes", Leaves="<-LvOpt", Quants="<-QOpt8", MaxSize=3, MaxLen=3 if q else 4,
                        FlagSets="<-FlagsIM", Alpha="{97, 65, 10}"), **o)] + \
                ([] if q else [dict(G("shapes4", Leaves="<-LvOpt6", Quants="<-QSmall", MaxSize=4, MaxLen=3,
                                      FlagSets="<-FlagsIM", Alpha="{97, 65, 10}"), **o)]) + [
                 dict(G("anch", Leaves="<-LvAnch", Quants="<-QBasicLazy", MaxSize=3 if q else 4, FlagSets="<-FlagsMS",
                        Alpha="{97, 10}", MaxLen=3), **o),
+                dict(G("fixed", Leaves="<-LvOptFix", Quants="<-QFix", MaxSize=4, FlagSets="<-OnlyNoFlags",
+                       Alpha="{97, 98}", MaxLen=5 if q else 6, invs=["T1_RoundTrip", "T2_OrderFree"]), **o),
                 dict(G("sem", MaxSize=3 if q else 4, MaxLen=3), **o),
                 T("rand", "general", 2000, 40000, unopt=True), T("case", "case", 1000, 20000, unopt=True),
                 {"type": "facts", "tag": "facts", "profiles": [("general", 400, 6000), ("anchors", 300, 4000), ("case", 300, 4000)]}]
@@ -197,6 +201,8 @@ def plan(prop, tier):
                   Variants='{"laws"}', invs=["T1_RoundTrip", "T16_Laws"]),
                 G("lawsi", Leaves="<-LvAB", Quants="<-QBasic", MaxSize=3, MaxLen=3, FlagSets="<-AllFlags",
                   Alpha="{97, 65, 10}", Variants='{"laws"}', invs=["T16_Laws"]),
+                G("lawsfix", Leaves="<-LvOptFix", Quants="<-QFix", MaxSize=3 if q else 4, MaxLen=4, Alpha="{97, 98}",
+                  Variants='{"laws"}', invs=["T1_RoundTrip", "T16_Laws"]),
                 T("rand", "general", 1500, 30000),
                 {"type": "facts", "tag": "lower", "profiles": [("general", 400, 6000), ("loops", 300, 4000)]}]
     return []
@@ -218,7 +224,7 @@ def run_check(prop, tier):
         tag = "%s_%s_%s" % (prop, tier, st["tag"])
         if st["type"] == "gen":
             info, stats, viols = orch.tlc_gen_replay(tag, st.get("module", "MCGen.tla"), st["consts"], st["invs"],
-                                                     also_unopt=st.get("also_unopt", False),
+                                                     also_unopt=st.get("also_unopt", False), facts=st.get("facts", False),
                                                      init=st.get("init", "GInit"), nxt=st.get("next", "GNext"))
             tot["states"] += info["distinct"]
             tot["transitions"] += info["states"]
@@ -235,7 +241,8 @@ def run_check(prop, tier):
             allviol += viols
             stage_info.append({"stage": st["tag"], "consts": {k: str(v) for k, v in st["consts"].items()},
                                "invariants": st["invs"], "tlc_states": info["distinct"], "wall_s": info["wall_s"],
-                               "behaviours": stats["behaviours"]})
+                               "behaviours": stats["behaviours"],
+                               "facts_patterns_checked": stats.get("facts_patterns_checked", 0)})
         elif st["type"] == "apimc":
             info = orch.tlc_model(tag, "MCApi.tla", st["consts"], ["T5_Inv", "T6_Inv", "T14_Pure"], init="MInit", nxt="MNext",
                                   extra="VIEW View\nPROPERTY T6_Progress")
@@ -270,24 +277,12 @@ def run_check(prop, tier):
             for (prof, nq, nt) in st["profiles"]:
                 ftag = tag + "_" + prof
                 d, rs = orch.record(ftag, prof, seed, nq if tier == "quick" else nt, "facts", False)
-                lines = open(os.path.join(d, "facts.ndjson")).read().splitlines()
-                files = []
-                nsh = max(1, min(12, len(lines) // 25))
-                per = (len(lines) + nsh - 1) // nsh
-                for i in range(nsh):
-                    part = lines[i * per:(i + 1) * per]
-                    if part:
-                        f = os.path.join(d, "facts_shard%02d.ndjson" % i)
-                        open(f, "w").write("\n".join(part) + "\n")
-                        files.append(f)
-                tt, mm = orch.parallel_trace_specs(ftag, files, "FactsTrace.tla", "FactsTrace.cfg")
+                fv, tt = orch.validate_facts(ftag, os.path.join(d, "facts.ndjson"))
                 nev += tt["lines"]; ncmp += tt["compared"]
                 tot["states"] += tt["states"]; tot["transitions"] += tt["states"]
-                for (f, line, kind, info) in mm:
-                    ev = json.loads(open(f).read().splitlines()[line - 1])
-                    allviol.append({"kind": "facts", "pat_s": orch.cps_s(ev["pat"]), "flags": orch.cps_s(ev["flags"]),
-                                    "x": ev["xpath"], "s_s": orch.cps_s(info.get("input", [])) if isinstance(info, dict) else "",
-                                    "call": "compile-time fact", "expected": info, "observed": ev["facts"], "cut": 0, "src": ftag})
+                for v in fv:
+                    v["src"] = ftag
+                allviol += fv
             tot["trace_events"] = tot.get("trace_events", 0) + nev
             tot["trace_compared"] = tot.get("trace_compared", 0) + ncmp
             tot["trace_jobs"] = tot.get("trace_jobs", 0) + nev
@@ -379,6 +374,9 @@ def main(argv):
             return replay(argv[1])
         if argv[0] == "selftest":
             return selftest()
+        if argv[0] == "plan":
+            print(describe())
+            return 0
         prop = argv[0]
         tier = argv[1] if len(argv) > 1 else os.environ.get("VERIF_TIER", "quick")
         return run_check(prop, tier)
@@ -499,3 +497,45 @@ def selftest():
     ok &= not missing
     print("selftest: %s" % ("PASS" if ok else "FAIL"))
     return 0 if ok else 2
+
+
+def describe():
+    """Markdown table of what every check runs (generated from plan(); pasted into DESIGN.md appendix D)."""
+    out = ["| property | tier | stage | kind | bounds / volume |", "|---|---|---|---|---|"]
+    for prop in sorted(KINDS):
+        for tier in ("quick", "thorough"):
+            for st in plan(prop, tier):
+                ty = st["type"]
+                if ty == "gen":
+                    c = st["consts"]
+                    mod = st.get("module", "MCGen.tla")
+                    if mod == "MCGen.tla":
+                        b = "leaves %s, quantifiers %s, size <= %s, inputs over %s up to length %s, flags %s, variants %s" % (
+                            c["Leaves"][2:], c["Quants"][2:], c["MaxSize"], c["Alpha"], c["MaxLen"], c["FlagSets"][2:], c["Variants"])
+                    elif mod == "MCTok.tla":
+                        b = "mode %s, tokens %s, up to %s tokens, dialects %s" % (c["Mode"], c["Toks"], c["MaxToks"], c["Dialects"])
+                    else:
+                        b = "replacement strings up to length %s" % c.get("MaxRepl")
+                    kind = "TLC enumeration (%s) -> replay%s; invariants %s" % (mod, " + unoptimised differential" if st.get("also_unopt") else "",
+                                                                                " ".join(i for i in st["invs"] if not i.startswith("Emit")))
+                elif ty == "trace":
+                    kind = "recorder (%s, mode %s%s) -> ApiTrace.tla" % (st["profile"], st["mode"], ", + unoptimised differential" if st["unopt"] else "")
+                    b = "%d jobs" % (st["count"][0] if tier == "quick" else st["count"][1])
+                elif ty == "suite":
+                    kind, b = "the repository's 1032 tests, traced -> ApiTrace.tla", "about 3 400 events"
+                elif ty == "facts":
+                    kind = "recorder (facts hook) -> FactsTrace.tla (obligations of compile-time facts; Engine.tla lowering)"
+                    b = ", ".join("%s %d" % (p, (nq if tier == "quick" else nt)) for p, nq, nt in st["profiles"])
+                elif ty == "unicode":
+                    kind, b = "sweep of all scalar values -> UnicodeTrace.tla", "744 escapes x 1 112 064 scalars"
+                elif ty == "classes":
+                    kind = "class sweeps -> ClassTrace.tla"
+                    b = "516 enumerated + %d random class expressions, %d full sweeps" % (st["nrand"], st["full"])
+                elif ty == "apimc":
+                    kind, b = "TLC exhaustive (MCApi.tla), invariants T5 T6 T14, property T6_Progress", str(st["consts"])
+                elif ty == "apisim":
+                    kind, b = "TLC simulation (MCApi.tla) -> replay (sequential + 4 threads, purity differential)", "num=%d depth=%d %s" % (st["num"], st["depth"], st["consts"]["PoolName"])
+                else:
+                    kind, b = ty, ""
+                out.append("| %s | %s | %s | %s | %s |" % (prop, tier, st["tag"], kind, b.replace("|", "\\|")))
+    return "\n".join(out)
